@@ -322,13 +322,43 @@ def sweep(ctx):
     for cut in range(0, len(hello), 5):
         muts.append(("truncate@%d" % cut, hello[:cut]))
     C = base.C
+    # signatures the pinned key object has verified before (the client's earlier session, and - delivered first, below - this session's genuine hello) attached
+    # to the attacker's own parameters: a verification is about (signature, data), never about the signature alone
+    from io import BytesIO as _B2
+    for label, sigbytes in (("signature of the client's earlier session", base.sig0), ("signature of this session's genuine hello", sig)):
+        tmp = _B2()
+        S.serialize_value(tmp, base.a_priv.getPublicKey().getBytes())
+        S.serialize_value(tmp, base.na)
+        S.serialize_value(tmp, base.ta)
+        body = _B2()
+        body.write(struct.pack(">H", C.HandshakeServerHelloMessage.type_id))
+        S.serialize_value(body, base.w.ctxt.server_root_key.getPublicKey().getBytes())
+        S.serialize_value(body, tmp.getvalue())
+        S.serialize_value(body, sigbytes)
+        hdr = C.PacketHeader.create(True, int(base.w.vt.time()), C.PacketType.SERVER_HELLO, C.SeqNum(base.nextseq()), C.SeqNum(1), 0)
+        pkt = C.Packet.create(hdr, [C.PendingMessage(C.SeqNum(base.nextseq()), C.PacketType.SERVER_HELLO, body.getvalue(), None, C.RetryMode.NONE)])
+        muts.append(("attacker parameters under the " + label, pkt.to_bytes(None)))
+    pinned = base.cl.server_public_key          # the very key object the application's UdpClient hands to each of its connections
+    if pinned is None:
+        raise Machinery("the UdpClient of the world has no pinned key")
+    # the pinned key object verifies the genuine hello of this session once (as it would in a session that was then abandoned)
+    warm = C.ClientServerConnection(CA)
+    warm.clock = base.w.vt.time
+    warm.session_key = base.cl.conn.session_key
+    warm.setServerPublicKey(pinned)
+    warm._sendClientHello()
+    warm._build_packet()
+    try:
+        warm._recv_datagram(C.PacketHeader.from_bytes(False, hello), hello)
+    except Exception:
+        pass
     try:
         for name, raw in muts:
             # a fresh un-keyed client object with the same ephemeral key (so that the genuine key is the reference)
             cl = C.ClientServerConnection(CA)
             cl.clock = base.w.vt.time
             cl.session_key = base.cl.conn.session_key
-            cl.setServerPublicKey(base.w.ctxt.server_root_key.getPublicKey())
+            cl.setServerPublicKey(pinned)
             cl._sendClientHello()
             cl._build_packet()
             try:
